@@ -1000,6 +1000,18 @@ func init() {
 			{K: "writefile", P: "etc/group", D: "root:x:0:\nwheel:x:2097152:\n", N: 0o644},
 			{K: "bigfile", P: "big", O: 7, M: 2<<20 + 5, N: 0o600}}},
 			"component-wise order (a, a/x before a-b, a.b), empty file, setuid/sticky, fs.FileMode junk bits, dangling symlink, device, large ids, PAX mtime, binary xattr, passwd with a rejected line, a 2 MiB file")
+		// round 4: truncation of a package-provided (tar-backed) file before the layer is written, by every path; on
+		// the pinned tree the truncation is ignored consistently (F17b): Stat, ReadFile and the layer keep the package's bytes
+		put("trunc-pkg-file-tarfs", tarCase{Kind: "fs", Backend: "tarfs", Trunc: []string{"pkg:writefile-nil", "pkg:create", "pkg:open-trunc", "pkg:open-trunc-create", "pkg:open-trunc-write"}, Ops: []fsOp{
+			reg("etc/motd", "welcome\n", "p"), reg("etc/a", "aaaa", "p"), reg("etc/b", "bbbbb", "p"), reg("etc/c", "cccccc", "p"), reg("etc/d", "ddddddd", "p"), reg("etc/keep", "kept", "p"),
+			{K: "writefile", P: "etc/motd", D: "", N: 0o644}, {K: "create", P: "etc/a"}, {K: "open", P: "etc/b", M: os.O_WRONLY | os.O_TRUNC, N: 0o644},
+			{K: "open", P: "etc/c", M: os.O_WRONLY | os.O_CREATE | os.O_TRUNC, N: 0o644}, {K: "open", P: "etc/d", M: os.O_RDWR | os.O_TRUNC, N: 0o644},
+			{K: "write", H: 3, D: "new"}, {K: "close", H: 3}}},
+			"package-provided files truncated without new content (WriteFile(p,nil), Create, O_TRUNC, O_CREATE|O_TRUNC) and with new content: every regular entry of the layer must be what Stat/ReadFile of the file system deliver")
+		put("trunc-plain-file-memfs", tarCase{Kind: "fs", Backend: "memfs", Trunc: []string{"plain:writefile-nil", "plain:create", "plain:open-trunc"}, Ops: []fsOp{
+			{K: "mkdirall", P: "etc", N: 0o755}, {K: "writefile", P: "etc/motd", D: "welcome\n", N: 0o644}, {K: "writefile", P: "etc/a", D: "aaaa", N: 0o644}, {K: "writefile", P: "etc/b", D: "bbbbb", N: 0o644},
+			{K: "writefile", P: "etc/motd", D: "", N: 0o644}, {K: "create", P: "etc/a"}, {K: "open", P: "etc/b", M: os.O_RDWR | os.O_TRUNC, N: 0o644}}},
+			"plain files truncated: the layer has empty files")
 		// end to end: a package whose hard link sorts before its target, one whose hard link sorts after
 		pk := func(link string) []SPkg {
 			return []SPkg{{Name: "p", Version: "1.0-r0", Origin: "p", Files: []SFile{
@@ -1014,6 +1026,10 @@ func init() {
 		ic.Accounts.Groups = []types.Group{{GroupName: "app", GID: 1000}}
 		put("F06a-e2e", tarCase{Kind: "e2e", Img: &ImgCase{Pkgs: pk("a-link"), IC: ic, Archs: []string{"x86_64"}}},
 			"F06a end to end: package p ships usr/bin/m-target and the hard link usr/bin/a-link -> usr/bin/m-target")
+		icT := ic
+		icT.Paths = []types.PathMutation{{Path: "/usr/bin/m-target", Type: "empty-file", UID: 0, GID: 0, Permissions: 0o644}}
+		put("trunc-pkg-file-e2e", tarCase{Kind: "e2e", Img: &ImgCase{Pkgs: pk("z-link"), IC: icT, Archs: []string{"x86_64"}}, Trunc: []string{"pkg:empty-file-mutation"}},
+			"end to end: `paths: type: empty-file` on usr/bin/m-target, a non-empty file of package p (FullFS.Create on a tar-backed node)")
 		put("e2e-late-link", tarCase{Kind: "e2e", Img: &ImgCase{Pkgs: pk("z-link"), IC: ic, Archs: []string{"x86_64"}}},
 			"the same package with the link named z-link: faithful")
 		return true
